@@ -7,3 +7,10 @@ mod tasks;
 pub use event::{Event, ProcessorError, ProcessorStatus};
 pub(crate) use pipeline::Pipeline;
 pub(crate) use tasks::TaskTracker;
+
+/// Verification-only access to the otherwise crate-private pipeline types.
+#[cfg(p2panda_p2panda_verif)]
+pub mod verif {
+    pub use super::pipeline::Pipeline;
+    pub use super::tasks::{Task, TaskTracker};
+}
